@@ -46,7 +46,10 @@ def run(ctx, rep):
         check_delim(crate, rep, cfg)
         check_patch_jt(crate, rep, cfg)
         import rpanic
-        rpanic.check(crate, rep, "R-PANIC.parse", ("parsing/lexer.rs", "parsing/parser.rs", "parsing/compiler.rs", "parsing/instructions.rs", "template.rs", "tera.rs", "delimiters.rs"), cfg, 40)
+        rpanic.check(crate, rep, "R-PANIC.parse", ("parsing/lexer.rs", "parsing/parser.rs", "parsing/compiler.rs", "parsing/instructions.rs", "template.rs", "tera.rs", "delimiters.rs"), cfg, 39)
+        # finalize_templates builds the error report eagerly (validate_template_references -> generate_report), so the report builder runs
+        # on the add path: its panic-capable sites belong to this property as much as to C12
+        rpanic.check(crate, rep, "R-PANIC.report", ("errors.rs", "reporting.rs", "utils.rs"), cfg, 4)
     pos = ctx.posctl()
     # positive controls: unguarded self-recursion and an uncharged loop-carried wrap must be flagged
     from engine import Report
@@ -55,7 +58,9 @@ def run(ctx, rep):
     scope = {pos.root_of(b).path for b in pos.in_files("recctl.rs")}
     rrec.analyse(pos, cg, scope, r2, "R-REC.ctl", {}, "posctl", ("recctl::Tree",))
     fired_rec = any((not i.ok) and "P::unguarded->" in i.key for i in r2.instances) and \
-        not any((not i.ok) and "P::guarded" in i.key for i in r2.instances)
+        not any((not i.ok) and "P::guarded" in i.key for i in r2.instances) and \
+        any((not i.ok) and "P::leaky_gated->" in i.key for i in r2.instances) and \
+        not any((not i.ok) and "P::gated->" in i.key for i in r2.instances)
     wraps = []
     for b in pos.in_files("recctl.rs"):
         wraps += [(b, w) for w in uncharged_wraps(b, pos, ("recctl::Tree",), set())]
